@@ -16,6 +16,7 @@ import Poulpy.Lemmas.HeadRoom
 import Poulpy.Lemmas.TensorCols
 import Poulpy.Lemmas.TensorValue
 import Poulpy.Lemmas.MulCompose
+import Poulpy.Lemmas.RelinCross
 import Poulpy.Props.C02
 import Poulpy.Props.C07
 
@@ -1861,5 +1862,239 @@ example : ∀ l ∈ Hal.colAdd 1 [[3], [1]] [[2], [-4]], PB 1 (4 + 4) l :=
 example : |(-8 : Int)| ≤ 2 ^ (4 - 1) := bal_abs 4 (-8) (by decide)
 example : ∀ l ∈ (prepAll 1 (msbMaskBottomLimb 4 6) [[[3], [-7]]]).getD 0 [], PB 1 (2 ^ (4 - 1)) l :=
   prepAll_balanced 1 4 6 (by decide) (by decide) [[[3], [-7]]] 2 (by decide) (by decide) 0
+
+/-! ## Any tensor radix: the conversion inside relinearisation discharged -/
+
+/-- **`relin_decrypts_any_radix`** — `glwe_tensor_relinearize` END TO END with the tensor in ANY radix `1..62` (converted column by column into
+the tensor-key radix: `Core.relinearize_cross`, `Core.glweNormalize_total` — exact on the torus under every secret), covered regime
+(`⌈rsT·ab/bg⌉ ≤ min(size, dnum·dsize)`), grouped secret `skG = (s, s⊗s)`, every key digit size, both accumulator widths, head-room derived:
+`2^(ab·rsT+bg·S)·phase_s(res) = 2^(rb·rs)·(2^(bg·S)·phase_{skG}(T) + 2^(ab·rsT)·relinErr) + 2^(ab·rsT)·En + 2^(…)·Q`. -/
+theorem relin_decrypts_any_radix {N : Nat} (big128 : Bool) (rb rs ab rsT : Nat) (T : List Col) (g : GGLWE) (res0 : List Col)
+    (sk skG : List Poly) (E : ℕ → ℕ → Ks.R N) (Hin Da Dm : Int) (hN : 0 < N)
+    (hTlen : T.length = g.colsOut + g.colsIn) (hc1 : 1 ≤ g.colsOut) (hTwf : ∀ c ∈ T, C02L.ColWF N rsT c)
+    (hTb : ∀ c ∈ T, ∀ l ∈ c, ∀ x ∈ l, |x| ≤ Hin) (hH0 : 0 ≤ Hin) (hH : Hin + 8 ≤ 2 ^ 62)
+    (hrb1 : 1 ≤ rb) (hrb : rb ≤ 62) (hab1 : 1 ≤ ab) (hab : ab ≤ 62) (hbt1 : 1 ≤ g.base2k) (hbt : g.base2k ≤ 62)
+    (hDa : if ab = g.base2k then Hin ≤ Da else 2 ^ g.base2k - 1 ≤ Da) (hDm : 0 ≤ Dm)
+    (hadm : prodAdmissible (bitsOf big128) g.dsize g.colsIn g.dnum N Da Dm Da)
+    (hgd : ∀ row ∈ g.cells, ∀ c ∈ row, ∀ l ∈ c, ∀ x ∈ l, |x| ≤ Dm)
+    (hd : 1 ≤ g.dsize) (hn : g.n = N) (h0 : shapeOk g.n g.colsOut g.size res0 = true) (hM : ∀ j q, (g.toPMat.entry j q).length = N)
+    (hS : g.dnum * g.dsize ≤ g.size)
+    (hcov1 : epConvSize rsT ab g.base2k ≤ g.size) (hcov2 : epConvSize rsT ab g.base2k ≤ g.dnum * g.dsize)
+    (hsk : g.colsOut - 1 ≤ sk.length) (hskGl : skG.length = T.length - 1)
+    (hskG1 : ∀ k, k < g.colsOut - 1 → skG.getD k [] = sk.getD k [])
+    (hkey : ∀ i, i < g.colsIn → ∀ r, r < g.dnum →
+      Gadget.val ((2 : Ks.R N) ^ g.base2k) g.size (Ks.keyPhase N sk g.toPMat i r)
+        = 1 * Ks.ι N (skG.getD (g.colsOut - 1 + i) []) * ((2 : Ks.R N) ^ g.base2k) ^ (g.size - (r + 1) * g.dsize) + E i r) :
+    ∃ res T', relinearize big128 N rb rs T ab g g.size res0 = some res ∧
+      relinearize big128 N rb rs T ab g g.size res0 = relinearize big128 N rb rs T' g.base2k g g.size res0 ∧
+      C02L.GWF N (Ks.mkCt rb N res) ∧ (∀ c ∈ res, ∀ l ∈ c, ∀ x ∈ l, |x| ≤ 2 ^ rb - 1) ∧
+      ∃ (En : Poly) (Qr : Ks.R N), En.length = N ∧
+        normInf En ≤ (1 + C02L.snorm (min (g.colsOut - 1) sk.length) sk) * C02.normTol (rb * rs) (g.base2k * g.size) ∧
+        (2 : Ks.R N) ^ (ab * rsT + g.base2k * g.size) * Ks.ι N (C02L.valP rb N (Core.Ops.phase sk (Ks.mkCt rb N res)))
+          = (2 : Ks.R N) ^ (rb * rs) *
+              ((2 : Ks.R N) ^ (g.base2k * g.size) * Ks.ι N (C02L.valP ab N (Core.Ops.phase skG (Ks.mkCt ab N T)))
+                + (2 : Ks.R N) ^ (ab * rsT) * relinErr N sk (relinInput N T' g) g ((2 : Ks.R N) ^ g.base2k) E)
+            + (2 : Ks.R N) ^ (ab * rsT) * Ks.ι N En
+            + (2 : Ks.R N) ^ (ab * rsT + rb * rs + g.base2k * g.size) * Qr := by
+  have hT0 : 0 < T.length := by omega
+  have hTne : T ≠ [] := by intro h; rw [h] at hT0; simp at hT0
+  have hsa0 : (T.getD 0 []).length = rsT := by
+    rw [List.getD_eq_getElem?_getD, List.getElem?_eq_getElem hT0]; exact (hTwf _ (List.getElem_mem hT0)).1
+  set cs := epConvSize rsT ab g.base2k with hcs
+  have hDa0 : 0 ≤ Da := by
+    split at hDa
+    · linarith
+    · have : (1 : Int) ≤ 2 ^ g.base2k := one_le_pow₀ (by norm_num)
+      linarith
+  -- the converted tensor
+  have hconv : ∃ T', relinearize big128 N rb rs T ab g g.size res0 = relinearize big128 N rb rs T' g.base2k g g.size res0 ∧
+      T'.length = T.length ∧ (∀ c ∈ T', C02L.ColWF N cs c) ∧ (∀ c ∈ T', ∀ l ∈ c, ∀ x ∈ l, |x| ≤ Da) ∧
+      ∃ Q1 : Poly, Q1.length = N ∧
+        (2 : Ks.R N) ^ (ab * rsT) * Ks.ι N (C02L.valP g.base2k N (Core.Ops.phase skG (Ks.mkCt g.base2k N T')))
+          = (2 : Ks.R N) ^ (g.base2k * cs) * Ks.ι N (C02L.valP ab N (Core.Ops.phase skG (Ks.mkCt ab N T)))
+            + (2 : Ks.R N) ^ (g.base2k * cs + ab * rsT) * Ks.ι N Q1 := by
+    by_cases hr : ab = g.base2k
+    · have hcs' : cs = rsT := by rw [hcs]; unfold epConvSize; simp [hr]
+      refine ⟨T, by rw [hr], rfl, by rw [hcs']; exact hTwf, ?_, zeroP N, by simp [zeroP], ?_⟩
+      · simp only [hr, if_true] at hDa
+        intro c hc l hl x hx; exact (hTb c hc l hl x hx).trans hDa
+      · rw [hcs', Ks.ι_zero, hr]; ring
+    · have hcs' : cs = (rsT * ab + g.base2k - 1) / g.base2k := by rw [hcs]; unfold epConvSize; simp [hr]
+      obtain ⟨T', h1, h2, h3, h4, h5⟩ := glweNormalize_total N hN T ab g.base2k rsT Hin hTne hTwf hab1 hab hbt1 hbt hH0 hH hTb
+      have h0' : 0 < T'.length := by rw [h2]; exact hT0
+      have hsa' : (T'.getD 0 []).length = (rsT * ab + g.base2k - 1) / g.base2k := by
+        rw [List.getD_eq_getElem?_getD, List.getElem?_eq_getElem h0']; exact (h3 _ (List.getElem_mem h0')).1
+      refine ⟨T', relinearize_cross big128 N rb rs T T' ab g res0 rsT hr hbt1 hsa0 hTlen h1 hsa', h2, by rw [hcs']; exact h3, ?_, ?_⟩
+      · simp only [hr, if_false] at hDa
+        intro c hc l hl x hx; exact (h4 c hc l hl x hx).trans hDa
+      · obtain ⟨Q1, hQ1, he⟩ := h5 skG
+        exact ⟨Q1, hQ1, by rw [hcs']; exact he⟩
+  obtain ⟨T', hrel, hT'len, hT'wf, hT'b, Q1, hQ1, hconvEq⟩ := hconv
+  have hT'len' : T'.length = g.colsOut + g.colsIn := by rw [hT'len, hTlen]
+  have hT'0 : 0 < T'.length := by omega
+  have hri := relinInput_eq N T' g cs hbt1 hT'0 hT'len' hT'wf
+  have hcolT : ∀ k, k < T'.length → C02L.ColWF N cs (T'.getD k []) ∧ ∀ l ∈ T'.getD k [], ∀ v ∈ l, |v| ≤ Da := by
+    intro k hk
+    rw [List.getD_eq_getElem?_getD, List.getElem?_eq_getElem hk]
+    exact ⟨hT'wf _ (List.getElem_mem hk), hT'b _ (List.getElem_mem hk)⟩
+  have hriwf : ∀ c ∈ relinInput N T' g, C02L.ColWF N cs c := by
+    rw [hri]; intro c hc
+    obtain ⟨i, hi, rfl⟩ := List.mem_map.mp hc
+    exact (hcolT _ (by have := List.mem_range.mp hi; omega)).1
+  have hrib : ∀ c ∈ relinInput N T' g, ∀ l ∈ c, ∀ x ∈ l, |x| ≤ Da := by
+    rw [hri]; intro c hc
+    obtain ⟨i, hi, rfl⟩ := List.mem_map.mp hc
+    exact (hcolT _ (by have := List.mem_range.mp hi; omega)).2
+  have hrilen : (relinInput N T' g).length = g.colsIn := by simp [relinInput]
+  have hrish : shapeOk g.n g.colsIn ((relinInput N T' g).getD 0 []).length (relinInput N T' g) = true := by
+    rw [hn]
+    by_cases hci0 : g.colsIn = 0
+    · have : relinInput N T' g = [] := by unfold relinInput; rw [hci0]; rfl
+      rw [this, hci0]; rfl
+    · have h0' : 0 < (relinInput N T' g).length := by rw [hrilen]; omega
+      have e : ((relinInput N T' g).getD 0 []).length = cs := by
+        rw [List.getD_eq_getElem?_getD, List.getElem?_eq_getElem h0']; exact (hriwf _ (List.getElem_mem h0')).1
+      rw [e]
+      exact shapeOk_of_wf N g.colsIn cs _ hrilen hriwf
+  have hPb := relin_headroom N (relinInput N T' g) g res0 Da Dm hDa0 hDm hd hn hrish h0 hrib hgd
+  unfold prodAdmissible at hadm
+  obtain ⟨res, hres, hgwf, hdig, En, Q, hE, hQ, hnm, heq⟩ := relin_decrypts big128 rb rs T' g res0 sk
+    (prodBound g.dsize g.colsIn g.dnum N Da Dm) Da hrb1 hrb hbt1 hbt (prodBound_nonneg _ _ _ _ _ _ hDa0 hDm) hDa0 hadm hPb
+    (fun j hj => (hcolT j (by omega)).1.2) hT'b (fun i => Ks.ι N (skG.getD (g.colsOut - 1 + i) [])) E hd hN hn (by omega) h0 hM hS hkey
+  have hcv := relin_covered_value N hN T' g sk skG (fun i => Ks.ι N (skG.getD (g.colsOut - 1 + i) [])) cs hT'len' hc1 hT'wf hbt1 hd hcov1 hcov2
+    hsk (by rw [hskGl, hT'len]) hskG1 (fun p _ => rfl)
+  refine ⟨res, T', by rw [hrel]; exact hres, hrel, hgwf, hdig, En, Ks.ι N Q + Ks.ι N Q1, hE, hnm, ?_⟩
+  unfold relinErr
+  have hpow : ((2 : Ks.R N) ^ g.base2k) ^ (g.size - cs) * (2 : Ks.R N) ^ (g.base2k * cs) = (2 : Ks.R N) ^ (g.base2k * g.size) := by
+    rw [← pow_mul, ← pow_add]
+    congr 1
+    rw [← Nat.mul_add]; congr 1; omega
+  have e1 : (2 : Ks.R N) ^ (ab * rsT + g.base2k * g.size) = (2 : Ks.R N) ^ (ab * rsT) * (2 : Ks.R N) ^ (g.base2k * g.size) := pow_add _ _ _
+  have e2 : (2 : Ks.R N) ^ (ab * rsT + rb * rs + g.base2k * g.size)
+      = (2 : Ks.R N) ^ (ab * rsT) * (2 : Ks.R N) ^ (rb * rs) * (2 : Ks.R N) ^ (g.base2k * g.size) := by rw [pow_add, pow_add]
+  have e3 : (2 : Ks.R N) ^ (rb * rs + g.base2k * g.size) = (2 : Ks.R N) ^ (rb * rs) * (2 : Ks.R N) ^ (g.base2k * g.size) := pow_add _ _ _
+  have e4 : (2 : Ks.R N) ^ (g.base2k * cs + ab * rsT) = (2 : Ks.R N) ^ (g.base2k * cs) * (2 : Ks.R N) ^ (ab * rsT) := pow_add _ _ _
+  rw [e3] at heq
+  rw [e4] at hconvEq
+  rw [e1, e2]
+  linear_combination ((2 : Ks.R N) ^ (ab * rsT)) * heq
+    + ((2 : Ks.R N) ^ (ab * rsT) * (2 : Ks.R N) ^ (rb * rs)) * hcv
+    + ((2 : Ks.R N) ^ (rb * rs) * ((2 : Ks.R N) ^ g.base2k) ^ (g.size - cs)) * hconvEq
+    + ((2 : Ks.R N) ^ (rb * rs) * Ks.ι N (C02L.valP ab N (Core.Ops.phase skG (Ks.mkCt ab N T)))
+        + (2 : Ks.R N) ^ (ab * rsT) * (2 : Ks.R N) ^ (rb * rs) * Ks.ι N Q1) * hpow
+
+/-- a tensor in radix `2^2` relinearised with the radix-`2^4` key `exTsk` (cross radix), NTT120 accumulator -/
+example : ∃ res, relinearize true 1 4 3 ([[[1], [0], [1], [0]], [[0], [1], [0], [0]], [[1], [1], [0], [0]]] : List Col) 2 exTsk exTsk.size (zeroCols 1 2 3) = some res ∧ C02L.GWF 1 (Ks.mkCt 4 1 res) := by
+  obtain ⟨res, T', h1, _, h3, _⟩ := relin_decrypts_any_radix (N := 1) true 4 3 2 4 ([[[1], [0], [1], [0]], [[0], [1], [0], [0]], [[1], [1], [0], [0]]] : List Col) exTsk (zeroCols 1 2 3) [[2]] [[2], Hal.negMul [2] [2]]
+    (fun i r => Gadget.val ((2 : Ks.R 1) ^ exTsk.base2k) exTsk.size (Ks.keyPhase 1 [[2]] exTsk.toPMat i r)
+      - 1 * Ks.ι 1 (([[2], Hal.negMul [2] [2]] : List Poly).getD (exTsk.colsOut - 1 + i) []) * ((2 : Ks.R 1) ^ exTsk.base2k) ^ (exTsk.size - (r + 1) * exTsk.dsize))
+    1 15 1 (by decide) (by decide) (by decide) (by decide) (by decide) (by decide) (by decide) (by decide) (by decide) (by decide) (by decide)
+    (by decide) (by decide) (by decide) (by decide) (by decide) (by decide +kernel) (by decide) rfl (by decide)
+    (Ks.entry_length exTsk.toPMat 1 rfl (by decide +kernel)) (by decide) (by decide) (by decide) (by decide) (by decide)
+    (by intro k hk; have h0 : k = 0 := by
+          have : k < 1 := hk
+          omega
+        subst h0; rfl)
+    (by intro i _ r _; exact (add_sub_cancel _ _).symm)
+  exact ⟨res, h1, h3⟩
+
+/-- **`glwe_mul_decrypts_any_radix`** — ct × ct END TO END with the tensor in ANY radix `rbT ≤ 60` (the tensor digits `≤ 3·(2^rbT − 1)` must fit the
+conversion's head-room), not necessarily the tensor key's: `glwe_tensor_apply` then `glwe_tensor_relinearize` (which converts), every rank. -/
+theorem glwe_mul_decrypts_any_radix (big128 : Bool) (N rbT rsT off b : Nat) (a bb : List Col) (aK bK : Nat) (res0T : List Col)
+    (g : GGLWE) (rb rs : Nat) (res0 : List Col) (sk skG : List Poly) (σ : ℕ → Ks.R N) (E : ℕ → ℕ → Ks.R N)
+    (H Da Dm : Int) (sa sb cols : Nat) (hN : 0 < N)
+    (hcols : a.length = cols) (hcb : bb.length = cols) (hc1 : 1 ≤ cols)
+    (ha : ∀ x ∈ a, x.length = sa ∧ ∀ l ∈ x, l.length = N) (hbb : ∀ x ∈ bb, x.length = sb ∧ ∀ l ∈ x, l.length = N)
+    (hsa : 1 ≤ sa) (hsb : 1 ≤ sb) (hhi : (cnvOffsetSplit b off).1 ≤ sa + sb - 1)
+    (hr0 : res0T.length = (cols + 1) * cols / 2)
+    (hrbT1 : 1 ≤ rbT) (hrbT : rbT ≤ 60) (hb1 : 1 ≤ b) (hb : b ≤ 62) (hH0 : 0 ≤ H) (hH : H + 8 ≤ 2 ^ (bitsOf big128 - 2))
+    (haccD : ∀ i, i < cols → ∀ l ∈ Hal.cnvApplyCol N (limbBoundWithOffset (sa + sb - (cnvOffsetSplit b off).1) rsT rbT b (cnvOffsetSplit b off).2)
+        (cnvOffsetSplit b off).1 ((prepAll N (msbMaskBottomLimb b aK) a).getD i []) ((prepAll N (msbMaskBottomLimb b bK) bb).getD i []),
+        ∀ v ∈ l, |v| ≤ H)
+    (haccP : ∀ i j, i < j → j < cols → ∀ l ∈ Hal.cnvApplyCol N (limbBoundWithOffset (sa + sb - (cnvOffsetSplit b off).1) rsT rbT b (cnvOffsetSplit b off).2)
+        (cnvOffsetSplit b off).1
+        (Hal.colAdd N ((prepAll N (msbMaskBottomLimb b aK) a).getD i []) ((prepAll N (msbMaskBottomLimb b aK) a).getD j []))
+        (Hal.colAdd N ((prepAll N (msbMaskBottomLimb b bK) bb).getD i []) ((prepAll N (msbMaskBottomLimb b bK) bb).getD j [])),
+        ∀ v ∈ l, |v| ≤ H)
+    (hskl : skG.length = (cols + 1) * cols / 2 - 1) (hσ0 : σ 0 = 1)
+    (hτ : ∀ i j, i ≤ j → j < cols → 0 < cix cols i j → Ks.ι N (skG.getD (cix cols i j - 1) []) = σ i * σ j)
+    (hsk : cols - 1 ≤ sk.length) (hskG1 : ∀ k, k < cols - 1 → skG.getD k [] = sk.getD k [])
+    (hco : g.colsOut = cols) (hci : g.colsOut + g.colsIn = (cols + 1) * cols / 2)
+    (hrb1 : 1 ≤ rb) (hrb : rb ≤ 62) (hbt1 : 1 ≤ g.base2k) (hbt : g.base2k ≤ 62)
+    (hDa : if rbT = g.base2k then 3 * (2 ^ rbT - 1) ≤ Da else 2 ^ g.base2k - 1 ≤ Da) (hDm : 0 ≤ Dm)
+    (hadm : prodAdmissible (bitsOf big128) g.dsize g.colsIn g.dnum N Da Dm Da)
+    (hgd : ∀ row ∈ g.cells, ∀ c ∈ row, ∀ l ∈ c, ∀ x ∈ l, |x| ≤ Dm)
+    (hd : 1 ≤ g.dsize) (hn : g.n = N) (h0 : shapeOk g.n g.colsOut g.size res0 = true) (hM : ∀ j q, (g.toPMat.entry j q).length = N)
+    (hS : g.dnum * g.dsize ≤ g.size)
+    (hcov1 : epConvSize rsT rbT g.base2k ≤ g.size) (hcov2 : epConvSize rsT rbT g.base2k ≤ g.dnum * g.dsize)
+    (hkey : ∀ i, i < g.colsIn → ∀ r, r < g.dnum →
+      Gadget.val ((2 : Ks.R N) ^ g.base2k) g.size (Ks.keyPhase N sk g.toPMat i r)
+        = 1 * Ks.ι N (skG.getD (cols - 1 + i) []) * ((2 : Ks.R N) ^ g.base2k) ^ (g.size - (r + 1) * g.dsize) + E i r) :
+    ∃ T res T', tensorApply false big128 N rbT rsT off b a aK bb bK res0T = some T ∧
+      relinearize big128 N rb rs T rbT g g.size res0 = some res ∧ C02L.GWF N (Ks.mkCt rb N res) ∧
+      (∀ c ∈ res, ∀ l ∈ c, ∀ x ∈ l, |x| ≤ 2 ^ rb - 1) ∧
+      TensorSpec N rbT rsT off b a bb aK bK skG σ sa sb cols T ∧
+      ∃ (En : Poly) (Qr : Ks.R N), En.length = N ∧
+        normInf En ≤ (1 + C02L.snorm (min (cols - 1) sk.length) sk) * C02.normTol (rb * rs) (g.base2k * g.size) ∧
+        (2 : Ks.R N) ^ (rbT * rsT + g.base2k * g.size) * Ks.ι N (C02L.valP rb N (Core.Ops.phase sk (Ks.mkCt rb N res)))
+          = (2 : Ks.R N) ^ (rb * rs) *
+              ((2 : Ks.R N) ^ (g.base2k * g.size) * Ks.ι N (C02L.valP rbT N (Core.Ops.phase skG (Ks.mkCt rbT N T)))
+                + (2 : Ks.R N) ^ (rbT * rsT) * relinErr N sk (relinInput N T' g) g ((2 : Ks.R N) ^ g.base2k) E)
+            + (2 : Ks.R N) ^ (rbT * rsT) * Ks.ι N En
+            + (2 : Ks.R N) ^ (rbT * rsT + rb * rs + g.base2k * g.size) * Qr := by
+  obtain ⟨T, hT, hspec⟩ := tensor_apply_decrypts big128 N rbT rsT off b a bb aK bK res0T skG σ H sa sb cols hN hcols hcb hc1 ha hbb hsa hsb hhi
+    hr0 hrbT1 (by omega) hb1 hb hH0 hH haccD haccP hskl hσ0 hτ
+  obtain ⟨hTlen, hTwf, hTdig, hrest⟩ := hspec
+  have hTlen' : T.length = g.colsOut + g.colsIn := by rw [hTlen, hci]
+  have hY0 : (0 : Int) ≤ 3 * (2 ^ rbT - 1) := by
+    have : (1 : Int) ≤ 2 ^ rbT := one_le_pow₀ (by norm_num)
+    linarith
+  have hHin : 3 * ((2 : Int) ^ rbT - 1) + 8 ≤ 2 ^ 62 := by
+    have h1 : (2 : Int) ^ rbT ≤ 2 ^ 60 := pow_le_pow_right₀ (by norm_num) hrbT
+    have h2 : (2 : Int) ^ 62 = 4 * 2 ^ 60 := by norm_num
+    have h3 : (8 : Int) ≤ 2 ^ 60 := by norm_num
+    linarith
+  obtain ⟨res, T', hres, _, hgwf, hdig, En, Qr, hE, hnm, heq⟩ := relin_decrypts_any_radix big128 rb rs rbT rsT T g res0 sk skG E
+    (3 * (2 ^ rbT - 1)) Da Dm hN hTlen' (by omega) hTwf hTdig hY0 hHin hrb1 hrb hrbT1 (by omega) hbt1 hbt hDa hDm hadm hgd hd hn h0 hM hS
+    hcov1 hcov2 (by rw [hco]; exact hsk) (by rw [hskl, hTlen]) (by rw [hco]; exact hskG1) (by rw [hco]; exact hkey)
+  exact ⟨T, res, T', hT, hres, hgwf, hdig, ⟨hTlen, hTwf, hTdig, hrest⟩, En, Qr, hE, by rw [← hco]; exact hnm, heq⟩
+
+/-- tensor in radix `2^2` (4 limbs), tensor key `exTsk` in radix `2^4`: ct × ct across radices, every hypothesis discharged -/
+example : ∃ T res, tensorApply false false 1 2 4 4 4 [[[3], [0]], [[1], [0]]] 8 [[[2], [0]], [[1], [0]]] 8 (zeroCols 1 3 4) = some T ∧
+    relinearize false 1 4 3 T 2 exTsk exTsk.size (zeroCols 1 2 3) = some res ∧ C02L.GWF 1 (Ks.mkCt 4 1 res) := by
+  obtain ⟨T, res, T', h1, h2, h3, _⟩ := glwe_mul_decrypts_any_radix false 1 2 4 4 4 [[[3], [0]], [[1], [0]]] [[[2], [0]], [[1], [0]]] 8 8 (zeroCols 1 3 4)
+    exTsk 4 3 (zeroCols 1 2 3) [[2]] [[2], Hal.negMul [2] [2]] (fun i => if i = 0 then 1 else Ks.ι 1 [2])
+    (fun i r => Gadget.val ((2 : Ks.R 1) ^ exTsk.base2k) exTsk.size (Ks.keyPhase 1 [[2]] exTsk.toPMat i r)
+      - 1 * Ks.ι 1 (([[2], Hal.negMul [2] [2]] : List Poly).getD (2 - 1 + i) []) * ((2 : Ks.R 1) ^ exTsk.base2k) ^ (exTsk.size - (r + 1) * exTsk.dsize))
+    (2 ^ 61) 15 1 2 2 2 (by decide) rfl rfl (by decide)
+    (by decide) (by decide) (by decide) (by decide) (by decide) (by decide) (by decide) (by decide) (by decide) (by decide) (by decide) (by decide)
+    (by decide)
+    (by
+      intro i j hij hj
+      have h01 : i = 0 ∧ j = 1 := by omega
+      obtain ⟨rfl, rfl⟩ := h01
+      decide)
+    (by decide) rfl
+    (by
+      intro i j hij hj hpos
+      have hcases : (i = 0 ∧ j = 1) ∨ (i = 1 ∧ j = 1) := by
+        have hj2 : j < 2 := hj
+        have : ¬ (i = 0 ∧ j = 0) := by
+          rintro ⟨rfl, rfl⟩; simp [cix, colIdx] at hpos
+        omega
+      rcases hcases with ⟨rfl, rfl⟩ | ⟨rfl, rfl⟩
+      · have e : cix 2 0 1 - 1 = 0 := by decide
+        rw [e]; simp
+      · have e : cix 2 1 1 - 1 = 1 := by decide
+        rw [e]
+        show Ks.ι 1 (Hal.negMul [2] [2]) = _
+        rw [Ks.ι_negMul 1 _ _ rfl (by decide)]; simp)
+    (by decide)
+    (by intro k hk; have h0 : k = 0 := by omega
+        subst h0; rfl)
+    rfl (by decide) (by decide) (by decide) (by decide) (by decide) (by decide) (by decide) (by decide) (by decide +kernel)
+    (by decide) rfl (by decide) (Ks.entry_length exTsk.toPMat 1 rfl (by decide +kernel)) (by decide) (by decide) (by decide)
+    (by intro i _ r _; exact (add_sub_cancel _ _).symm)
+  exact ⟨T, res, h1, h2, h3⟩
 
 end C05
